@@ -3,6 +3,7 @@ import GwModel.ErrList
 import GwModel.Gen.Facts
 import GwModel.Exec.ErrOrder
 import GwModel.ExecSeq
+import GwModel.HttpErrors
 /-! # C07 — Failures are reported faithfully and stay contained
 
 Machine level (any forest, any failure pattern, any schedule): at return the collector has recorded
@@ -14,6 +15,10 @@ namespace Props.C07
 open ExecM
 
 theorem facts_safe : FactsSafe Gen.exec := by decide
+
+/-- http.go `formatErrorsWithCode` has the shape `HttpErr.format` models: entries that are not graphql errors are
+    rewritten as graphql errors carrying their message (regenerated on every run) -/
+theorem http_facts_safe : Gen.httpErrorsKeepMessages = true := by decide
 
 def cfg : Cfg := cfgOfFacts Gen.exec
 theorem cfg_safe : cfg.Safe := cfg_safe_of_facts facts_safe
@@ -65,6 +70,19 @@ theorem failures_are_never_uncounted (idText : Xs.IdText) (replies : List Xs.Rep
 /-- the reported list is the flattening of what was recorded, independent of the order of recording -/
 theorem reported_errors_order_independent {α : Type} {a b : List (ErrList.E α)} (h : a.Perm b) :
     (ErrList.accumulate a).Perm (ErrList.accumulate b) := ErrList.accumulate_perm h
+
+/-- **every failure reaches the client with its text** (`HttpErr.format`, the model of `formatErrorsWithCode`, tied by
+    `http_facts_safe` and the L0.http-errors channel): the response has one error object per entry of the error the
+    execution returned, in order, each carrying that entry's message — also for an entry that is no graphql error
+    (a transport failure handed up the way the queryer returned it) -/
+theorem every_failure_reaches_the_client_with_its_message (err : HttpErr.Err) (code : String) :
+    (HttpErr.format err code).map (·.message) = (HttpErr.entries err code).map (fun e => some e.message) :=
+  HttpErr.format_messages err code
+
+/-- what the code did before the repair of D64 (kept as a witness of what the theorem above excludes) -/
+theorem before_the_repair_a_transport_failure_lost_its_message :
+    HttpErr.formatOld (.list [⟨false, "connection refused", []⟩]) "INTERNAL_SERVER_ERROR" = [{ message := none, path := [], code := none }] :=
+  HttpErr.formatOld_loses_message
 
 /-- non-vacuity: a forest with a failing child; the run returns with exactly that error -/
 def oneFails : Tasks := [{ parent := none, failed := false }, { parent := some 0, failed := true }]
